@@ -22,8 +22,17 @@ for s in seeds:
     if "PATCH DOES NOT APPLY" in txt:
         # the code the change edits has been rewritten since (a later fix: commit); keep what was recorded before
         prev=d.get(s,{})
+        if prev.get("detected") is None:
+            # never evaluated on a tree it applied to (confirmed after the code was rewritten): evaluate it at the newest
+            # /repo commit it still applies to
+            import subprocess
+            r=subprocess.run([os.path.join(os.path.dirname(out),'..','tools','seed_eval_at.sh'),s],capture_output=True,text=True).stdout
+            ks=[re.sub(r' at [^ ]+:\d+.*| at -:.*','',l.strip()[len('violated '):]) for l in r.splitlines() if l.strip().startswith('violated ')]
+            m=re.search(r'^commit (\w+)',r,re.M)
+            prev={"detected": bool(ks), "detected_by_properties": sorted({k.split('.')[0] for k in ks}), "first_keys": ks[:4], "evaluated_at": m.group(1) if m else None}
         d[s]={"detected": prev.get("detected"), "detected_by_properties": prev.get("detected_by_properties",[]), "first_keys": prev.get("first_keys",[]),
               "skipped": "does not apply to the current tree any more; the entry records the last evaluation on a tree it applied to"}
+        if prev.get("evaluated_at"): d[s]["evaluated_at"]=prev["evaluated_at"]
         continue
     d[s]={"detected": bool(keys), "detected_by_properties": props, "first_keys": keys[:4]}
     if not keys: d[s]["note"]=txt.strip().splitlines()[-1] if txt.strip() else ""
